@@ -11,7 +11,7 @@ HARNESSES = [dict(name="configmgr", pkg="./pkg/configmgr/", test="TestVerifC13",
 
 def route(case):
     return "configmgr_race" if case.startswith("conc ") else "configmgr"
-VARIANTS = ["repaired", "frr_defect"]      # frr_defect = /repo HEAD until fixes/C13_frr_restore.patch is applied
+VARIANTS = ["repaired"]      # /repo HEAD; every recorded finding is fixed, a regression to an old defect is a VIOLATION
 MODEL_NEEDS_IMPL = True     # only the concurrent cases use it (linearizability search in the driver)
 RULE = ("One case = one history against a fresh ConfigManager: a registry of 2-7 recording handlers on real path "
         "patterns (scalar leaves of interfaces/vrfs/protocols/aaa, _internal no-op paths, a literal pattern shadowing "
@@ -69,6 +69,7 @@ SCHEMA = {
     "interfaces.<*>.address.ipv4": ("L", "1,2,3"),               # []string leaf behind a pointer
     "vrfs.<*>.import-route-targets": ("L", "1,2"),
     "protocols.bgp.neighbors.<*:ip>.description": ("S", "2,3,4"),  # typed wildcard: map key = decoded IP
+    "protocols.bgp.ipv4-unicast.networks.<*:prefix>": ("E", "2,3,4,5"),   # map entry holding *BGPNetwork, set with &BGPNetwork{}
     "aaa.nas_identifier": ("S", "-"),
     "aaa.nas_ip": ("S", "-"),
     "_internal.punt.<*>.arp": ("N", "-"),
@@ -97,6 +98,7 @@ VALUES = {
     "N": ["b1", "i1", hx("x")],
     "L": ["l" + "10.0.0.1/24".encode().hex(), "l" + "10.0.0.1/24".encode().hex() + ":" + "192.0.2.1/32".encode().hex(),
           "l" + "65000:1".encode().hex(), hx("10.0.0.1/24"), "i5", "b1"],
+    "E": ["p", "p", "p", hx("x"), "i1"],
     "A": [hx("edited"), hx("x"), hx("orig"), "b1"],
 }
 _uniq = [1000]
@@ -117,8 +119,12 @@ IPKEYS = ["00000000000000000000ffff0a000001", "00000000000000000000ffffc0000207"
           "20010db8000000000000000000000001"]       # paths.EncodeIP of 10.0.0.1, 192.0.2.7, 2001:db8::1
 
 
+PFXKEYS = ["203.0.113.0/24".encode().hex(), "198.51.100.0/24".encode().hex()]
+
+
 def concrete(rng, pat):
-    return ".".join(rng.choice(WILDS) if s == "<*>" else rng.choice(IPKEYS) if s == "<*:ip>" else s for s in pat.split("."))
+    return ".".join(rng.choice(WILDS) if s == "<*>" else rng.choice(IPKEYS) if s == "<*:ip>"
+                    else rng.choice(PFXKEYS) if s == "<*:prefix>" else s for s in pat.split("."))
 
 
 def mk_reg(rng, pats, deps, frr):
@@ -175,7 +181,7 @@ def good_value(rng, pat):
         return plugin_value(rng, pat)
     return {"I": "i%d" % rng.choice([1500, 9000, 1400, 68]), "U": "u%d" % rng.choice([1, 64, 65000]),
             "S": hx(rng.choice(["a", "core", "10.0.0.1"])), "B": "b1", "N": "b1",
-            "L": "l" + rng.choice(["10.0.0.1/24", "192.0.2.7/32"]).encode().hex()}[SCHEMA[pat][0]]
+            "L": "l" + rng.choice(["10.0.0.1/24", "192.0.2.7/32"]).encode().hex(), "E": "p"}[SCHEMA[pat][0]]
 
 
 def fill(pat, vals):
@@ -183,6 +189,9 @@ def fill(pat, vals):
     for s in pat.split("."):
         if s == "<*:ip>":
             out.append(IPKEYS[(len(vals[0]) + k) % len(IPKEYS)])
+            k += 1
+        elif s == "<*:prefix>":
+            out.append(PFXKEYS[(len(vals[0]) + k) % len(PFXKEYS)])
             k += 1
         elif s == "<*>":
             out.append(vals[k % len(vals)])
@@ -226,9 +235,16 @@ def rand_ops(rng, pats, deps, nops, guard=None):
             one_set(rng.randrange(len(pats)), [rng.choice(WILDS), rng.choice(WILDS)])
         ops.append("m %s %s" % (sid(), rng.choice(FAULTS)))
 
+    if not guard and rng.random() < 0.15:
+        ops.append(boot_op(rng.choice(["0:-"] * 6 + ["1:-", "2:-", "0:t", "0:s", "0:R", "4:q1"])))
     while len(ops) < nops:
         r = rng.random()
-        if r < 0.35:
+        if r < 0.03:
+            # with the MSS guard the model's validation parameter comes from the initial group: keep the groups
+            ops.append(load_op(sid(), "k" if guard else rng.choice(["c", "n", "k"])))
+        elif r < 0.04 and not guard:
+            ops.append(boot_op(rng.choice(FAULTS)))
+        elif r < 0.35:
             block()
         elif r < 0.40:
             ops.append("c")
@@ -302,6 +318,21 @@ def boundary_cases():
         out.append(reg3 + recipe_tokens(("deep", col)) + ["ops", "c", "s @ interfaces.eth1.mtu i9000 0", "m @ 0:-", "c",
                    "s @ interfaces.eth2.description %s 0" % hx("x"), "s @ protocols.ospf.enabled b1 0", "m @ 2:-",
                    "m @ 0:s", "m @ 0:-", "c"])
+    # start-up path, then an ordinary session: the derived BGP network and blackhole route must survive a commit of
+    # an unrelated leaf (the candidate of the next session is a copy of what start-up published)
+    regb = ["reg", "4", "interfaces.<*>.mtu", "I", "1,2", "-", "0", "interfaces.<*>.description", "S", "1,2", "-", "0",
+            "protocols.bgp.ipv4-unicast.networks.<*:prefix>", "E", "2,3,4,5", "-", "1", "protocols.ospf.enabled", "B", "2", "-", "1"]
+    for f in ["0:-", "2:-", "0:t", "0:s", "0:Rq1"]:
+        out.append(regb + ["ops", boot_op(f), "c", "s @ interfaces.eth0.mtu i9000 0", "m @ 0:-", "c",
+                           "s @ protocols.ospf.enabled b1 0", "m @ 0:-", boot_op("0:-"), "c", "s @ interfaces.eth1.mtu i1400 0", "m @ 0:-"])
+    out.append(reg3 + ["ops", boot_op("0:-"), "c", "s @ interfaces.eth0.mtu i9000 0", "m @ 0:-"])   # no BGP handler: start-up fails half-way
+    out.append(regb + ["ops", "c", boot_op("0:-"), "s @ interfaces.eth0.mtu i9000 0", "m @ 0:-", "x @", boot_op("0:-")])  # start-up while locked
+    # a commit that failed after validation, then LoadConfig replaces the candidate, then the commit is retried:
+    # the validators must run again on the new candidate
+    for f in ["1:-", "0:t", "0:r", "0:s", "2:q1"]:
+        out.append(reg3 + ["ops"] + base + ["m 1 " + f, load_op("@", "c"), "m @ 0:-", load_op("@", "n"), "m @ 0:-", "c"])
+        out.append(reg3 + ["ops"] + base + ["m 1 " + f, load_op("@", "k"), "m @ " + f, "s @ interfaces.eth2.mtu i1 0",
+                                           load_op("@", "c"), "s @ interfaces.eth2.mtu i2 0", "m @ 0:-", "x @"])
     # the routing daemon: reload fails cleanly / after the daemon took the candidate; a Rollback call fails
     for f in ["0:r", "0:R", "0:Rq1", "0:rq2", "3:q1", "0:tq2", "0:sq1"]:
         out.append(reg3 + ["ops"] + base + ["m 1 " + f, "m 1 0:-", "c", "s 2 interfaces.eth1.mtu i1400 0", "m 2 0:-",
@@ -390,7 +421,7 @@ def split_case(case):
             head = t[:p]
     p += 1  # "ops"
     ops = []
-    ar = {"c": 1, "x": 2, "d": 2, "s": 5, "t": 2, "b": 2, "m": 3}
+    ar = {"c": 1, "x": 2, "d": 2, "s": 5, "t": 2, "b": 2, "m": 3, "l": 4, "B": 4}
     while p < len(t):
         k = ar[t[p]]
         ops.append(t[p:p + k])
@@ -447,6 +478,37 @@ def init_entries(recipe):
     return []
 
 
+SG = "subscriber-groups.groups"
+
+
+def group_entries(collide):
+    return ["subscriber-groups/", SG + "/", SG + ".a/", SG + ".a.vlans.0/", SG + ".a.vlans.0.svlan=" + hx("100"),
+            SG + ".a.vlans.0.cvlan=" + hx("any"), SG + ".b/", SG + ".b.vlans.0/",
+            SG + ".b.vlans.0.svlan=" + hx("100" if collide else "101"), SG + ".b.vlans.0.cvlan=" + hx("any")]
+
+
+def load_op(sid, mode):
+    """LoadConfig(session, copy of the candidate with colliding (c) / distinct (n) subscriber groups / unchanged (k))"""
+    return "l %s %s %s" % (sid, mode, "-" if mode == "k" else ",".join(sorted(group_entries(mode == "c"))))
+
+
+NET = "203.0.113.0/24"
+BOOT_CFG = ["cgnat/", "cgnat.pools/", "cgnat.pools.p1/", "cgnat.pools.p1.outside_interfaces=l" + "eth1".encode().hex(),
+            "cgnat.pools.p1.outside-addresses=l" + NET.encode().hex(), "interfaces/", "interfaces.eth0/",
+            "interfaces.eth0.name=" + hx("eth0"), "interfaces.eth0.description=" + hx("Management Interface"),
+            "interfaces.eth0.enabled=b1", "interfaces.eth1/", "interfaces.eth1.name=" + hx("eth1"),
+            "interfaces.eth1.description=" + hx("wan"), "interfaces.eth1.enabled=b1", "interfaces.eth1.mtu=i1500", "verif.c13/"]
+# what ProcessCGNATPools does for that configuration: the blackhole route is written into the object in place,
+# the BGP network goes through Set
+BOOT_STEPS = ("E" + ",".join(["protocols.static/", "protocols.static.ipv4.0/",
+                              "protocols.static.ipv4.0.destination=" + hx(NET), "protocols.static.ipv4.0.next-hop=" + hx("blackhole")])
+              + "+S" + "protocols.bgp.ipv4-unicast.networks." + NET.encode().hex() + "=p")
+
+
+def boot_op(fault):
+    return "B %s %s %s" % (fault, ",".join(sorted(BOOT_CFG)), BOOT_STEPS)
+
+
 def recipe_tokens(recipe):
     if recipe is None:
         return []
@@ -487,12 +549,17 @@ def monitor(case, line, tolerate=None):
     if len(st) != len(ops):
         return None
     R, C, L = initial_R(head), "-", "-"
+    loaded = False           # the live session has replaced its candidate with LoadConfig
     aliased = False          # after a tolerated startup-save failure the session shares running
     phantom = []             # paths of failed Sets that nevertheless created containers (tolerated)
     for i, (o, s) in enumerate(zip(ops, st)):
         res, tr, d = parse_step(s)
         persisted = [k for k in "RSFW" if k in d]
-        if o[0] != "m":
+        if o[0] == "B":
+            pass        # start-up publishes the loaded configuration by design; its own commit is checked by the model
+        elif o[0] != "m":
+            if o[0] == "l" and res == "ok":
+                loaded = True    # LoadConfig replaced the whole candidate: every path counts as set
             if o[0] == "s" and res == "setfail" and "C" in d:
                 if "failed-set-leaves-containers" in tol:
                     phantom.append(o[2])
@@ -517,12 +584,12 @@ def monitor(case, line, tolerate=None):
                 if rb != okap[::-1]:
                     return "step %d (%s): commit returned %s, applied %s but rolled back %s" % (i, " ".join(o), res, okap, rb)
             else:
-                if "deep" in head and head[head.index("deep") + 1] == "1":
+                if collides(C):
                     return ("step %d (%s): commit accepted a candidate whose subscriber groups claim the same "
                             "(S-VLAN, C-VLAN) (ValidateMatchIndex, conf.go:280)" % (i, " ".join(o)))
                 if rb:
                     return "step %d: successful commit rolled back %s" % (i, rb)
-                if "R" in d:
+                if "R" in d and not loaded:
                     old = set() if R == "-" else set(R.split(","))
                     new = set() if d["R"] == "-" else set(d["R"].split(","))
                     setp = [x.split("=")[0] for x in okap] + phantom
@@ -537,6 +604,7 @@ def monitor(case, line, tolerate=None):
             aliased = False if L == "-" else aliased
             if L == "-":
                 phantom = []
+            loaded = False if o[0] != "l" else loaded
         ids = [] if C == "-" else [x.split("#")[0] for x in C.split("+")]
         if len(ids) > 1:
             return "step %d (%s): two candidate sessions alive: %s" % (i, " ".join(o), ids)
@@ -545,6 +613,24 @@ def monitor(case, line, tolerate=None):
         if ids and L != ids[0]:
             return "step %d (%s): session %s exists without holding the lock (lock: %s)" % (i, " ".join(o), ids[0], L)
     return None
+
+
+def collides(C):
+    """two vlan entries of the (single) candidate claim the same (svlan, cvlan)"""
+    if "{" not in C:
+        return False
+    body = C[C.index("{") + 1:C.rindex("}")]
+    sv, cv = {}, {}
+    for e in body.split(","):
+        if "=" not in e:
+            continue
+        p, v = e.rsplit("=", 1)
+        if p.startswith("subscriber-groups.") and p.endswith(".svlan"):
+            sv[p[:-6]] = v
+        elif p.startswith("subscriber-groups.") and p.endswith(".cvlan"):
+            cv[p[:-6]] = v
+    claims = [(v, cv.get(k)) for k, v in sv.items()]
+    return len(claims) != len(set(claims))
 
 
 def first_diff(impl, model):
